@@ -1,6 +1,7 @@
 package main
 
 import (
+	"time"
 	"fmt"
 	"os"
 	"runtime/debug"
@@ -140,6 +141,9 @@ func unsupported(format string, args ...interface{}) {
 // Exec is the symbolic executor for one function under contract (or one lemma).
 type Exec struct {
 	errAlias  map[types.Object]types.Object // target variable of errors.As -> the error variable it was extracted from
+	oblCells  int       // total number of assumption references held by obligations (memory budget)
+	steps     int       // statements executed (analysis budget)
+	started   time.Time // start of the symbolic execution of the function under proof
 	seqLens   map[string]int // parameters modelled as fixed-length sequences (seqlen clause)
 	specDepth int // > 0 while a function body is executed on behalf of contract text
 	U     *Universe
@@ -229,22 +233,45 @@ func (x *Exec) addObl(kind, name string, st *State, goal *Term, where string) {
 			}
 		}
 	}
-	if goal.Op == "and" && (kind == "post" || kind == "inv" || kind == "lemma" || kind == "assert" || (kind == "pre" && len(goal.Args) > 8)) && len(goal.Args) <= 1000 {
-		for i, g := range goal.Args {
-			x.addObl(kind, fmt.Sprintf("%s.c%d", name, i+1), st, g, where)
+	if goal.Op == "and" && (kind == "post" || kind == "inv" || kind == "lemma" || kind == "assert" || (kind == "pre" && len(goal.Args) > 8)) {
+		if len(goal.Args) <= 2000 {
+			for i, g := range goal.Args {
+				x.addObl(kind, fmt.Sprintf("%s.c%d", name, i+1), st, g, where)
+			}
+			return
+		}
+		// very large conjunctions: groups of 256 conjuncts per obligation
+		const grp = 256
+		for i := 0; i < len(goal.Args); i += grp {
+			j := i + grp
+			if j > len(goal.Args) {
+				j = len(goal.Args)
+			}
+			x.addOblNoSplit(kind, fmt.Sprintf("%s.g%d", name, i/grp+1), st, And(goal.Args[i:j]...), where)
 		}
 		return
 	}
-	if goal.Op == "=>" && goal.Args[1].Op == "and" && (kind == "post" || kind == "inv" || kind == "lemma" || kind == "assert") && len(goal.Args[1].Args) <= 1000 {
+	if goal.Op == "=>" && goal.Args[1].Op == "and" && (kind == "post" || kind == "inv" || kind == "lemma" || kind == "assert") && len(goal.Args[1].Args) <= 20000 {
 		for i, g := range goal.Args[1].Args {
 			x.addObl(kind, fmt.Sprintf("%s.c%d", name, i+1), st, Implies(goal.Args[0], g), where)
 		}
+		return
+	}
+	x.addOblNoSplit(kind, name, st, goal, where)
+}
+
+func (x *Exec) addOblNoSplit(kind, name string, st *State, goal *Term, where string) {
+	if x.quiet > 0 || x.inGlobalInit > 0 {
 		return
 	}
 	full := x.Name + "#" + name
 	x.occ[full]++
 	if n := x.occ[full]; n > 1 {
 		full = fmt.Sprintf("%s@%d", full, n)
+	}
+	x.oblCells += len(st.pc)
+	if len(x.Obls) > 60000 || x.oblCells > 150_000_000 {
+		unsupported("the analysis of this function generates too many obligations (more than %d, or more than %d assumption references): outside the budget", 60000, 150_000_000)
 	}
 	o := &Obl{Name: full, Kind: kind, PC: append([]*Term(nil), st.pc...), Goal: goal, Where: where, Func: x.Name, Real: x.fieldModulus != nil}
 	o.Inputs = x.inputs
